@@ -54,6 +54,8 @@ def base_values(kind, seed=0, h=H, w=W):
         v = ((r * 2 + c + seed) % 5) + 1
     elif kind == "cats":
         v = ((r + 2 * c + seed) % 3) * 10 + 10
+    elif kind == "const":
+        v = 5 + 0 * (r + c)
     else:
         raise ValueError(kind)
     return np.asarray(v, dtype=np.float64) + np.zeros((h, w))
@@ -97,8 +99,9 @@ def mk_raster(kind, dtype, layout="C", backend="numpy", seed=0, nan=False, name=
     import xarray as xr
     v = base_values(kind, seed, h, w)
     dt = np.dtype(dtype)
-    if dt.kind == "f" and frac:
-        v = v + 0.25 * (np.arange(h).reshape(h, 1) % 2)
+    if dt.kind == "f" and frac and kind == "elev":
+        # non-dyadic fractions: sums of them round, so a changed summation order (thread count) is visible
+        v = v + 0.1 * (np.arange(h).reshape(h, 1) % 3) + 0.013 * np.arange(w).reshape(1, w)
     if dt.kind == "f" and nan:
         v = v.copy()
         v[0, 0] = np.nan
@@ -202,6 +205,8 @@ def backend_of(data):
 
 def kernel(name):
     np = _np()
+    if name == "one1":
+        return np.ones((1, 1), dtype=np.float64)
     if name == "cross3":
         return np.array([[0, 1, 0], [1, 1, 1], [0, 1, 0]], dtype=np.float64)
     if name == "box3":
@@ -243,6 +248,10 @@ def mods():
 # )
 # `cls` (exception class) is deliberately NOT here: it is spec data in Aliasing.tla.
 
+def _only(p, *keys):
+    return {k: p[k] for k in keys if k in p}
+
+
 def _one(kind, **opts):
     return [("agg", kind, opts)]
 
@@ -253,6 +262,10 @@ def _double(x):
 
 def _plus1(x):
     return x + 1
+
+
+def _ident(x):
+    return x
 
 
 def catalog():
@@ -266,40 +279,45 @@ def catalog():
         C[name] = dict(mod=mod, attr=attr, ins=ins, kw=kw, variants=list(variants), **extra)
 
     simple = lambda p, ins: ((ins[0],), dict(p))   # noqa
-    add("slope", "slope", "slope", _one("elev"), simple)
-    add("aspect", "aspect", "aspect", _one("elev"), simple)
-    add("curvature", "curvature", "curvature", _one("elev"), simple)
+    tiny = [{}, {"_hw": [3, 3], "_corner": 1}]        # 3x3: a single interior cell
+    add("slope", "slope", "slope", _one("elev"), simple, variants=tiny)
+    add("aspect", "aspect", "aspect", _one("elev"), simple, variants=tiny)
+    add("curvature", "curvature", "curvature", _one("elev"), simple, variants=tiny)
     add("hillshade", "hillshade", "hillshade", _one("elev"), simple,
-        variants=[{}, {"azimuth": 100, "angle_altitude": 40}])
-    add("binary", "classify", "binary", _one("elev", nan=True), lambda p, ins: ((ins[0], p.get("values", [4, 7, 10, 13])), {}),
-        variants=[{}, {"values": [1, 2, 3]}])
+        variants=[{}, {"azimuth": 100, "angle_altitude": 40}, {"_hw": [3, 3], "_corner": 1}])
+    add("binary", "classify", "binary", _one("elev", nan=True), lambda p, ins: ((ins[0], p.get("values", [4, 7, 10, 13])), _only(p, "name")),
+        variants=[{}, {"values": [1, 2, 3]}, {"values": [], "_corner": 1}])
     add("reclassify", "classify", "reclassify", _one("elev", nan=True),
-        lambda p, ins: ((ins[0],), dict(bins=p.get("bins", [5, 15, 40]), new_values=p.get("new", [1, 2, 3]))),
-        variants=[{}, {"bins": [10, 20, 30, 40], "new": [9, 8, 7, 6]}])
-    add("quantile", "classify", "quantile", _one("elev", nan=True), lambda p, ins: ((ins[0],), dict(k=p.get("k", 4))),
-        variants=[{}, {"k": 3}])
+        lambda p, ins: ((ins[0],), dict(bins=p.get("bins", [5, 15, 40]), new_values=p.get("new", [1, 2, 3]), **_only(p, "name"))),
+        variants=[{}, {"bins": [10, 20, 30, 40], "new": [9, 8, 7, 6]},
+                  {"bins": list(range(1, 41)), "new": list(range(1, 41)), "_corner": 1}])      # identity reclassification
+    add("quantile", "classify", "quantile", _one("elev", nan=True), lambda p, ins: ((ins[0],), dict(k=p.get("k", 4), **_only(p, "name"))),
+        variants=[{}, {"k": 3}, {"k": 1, "_corner": 1}])
     add("natural_breaks", "classify", "natural_breaks", _one("elev", nan=True),
-        lambda p, ins: ((ins[0],), dict(k=p.get("k", 4), **({"num_sample": p["num_sample"]} if "num_sample" in p else {}))),
+        lambda p, ins: ((ins[0],), dict(k=p.get("k", 4), **_only(p, "num_sample", "name"))),
         variants=[{}, {"k": 3}, {"k": 4, "num_sample": 20}])
     add("equal_interval", "classify", "equal_interval", _one("elev", nan=True),
-        lambda p, ins: ((ins[0],), dict(k=p.get("k", 4))), variants=[{}, {"k": 3}])
+        lambda p, ins: ((ins[0],), dict(k=p.get("k", 4), **_only(p, "name"))), variants=[{}, {"k": 3}, {"k": 1, "_corner": 1}])
     add("convolution_2d", "convolution", "convolution_2d", _one("elev"),
-        lambda p, ins: ((ins[0], kernel(p.get("kernel", "cross3"))), {}),
-        variants=[{}, {"kernel": "circle5"}, {"kernel": "row3"}])
+        lambda p, ins: ((ins[0], kernel(p.get("kernel", "cross3"))), _only(p, "name")),
+        variants=[{}, {"kernel": "circle5"}, {"kernel": "row3"}, {"kernel": "one1", "_corner": 1}])
     add("focal_mean", "focal", "mean", _one("elev", nan=True),
         lambda p, ins: ((ins[0],), dict({k: v for k, v in p.items() if k != "excludes"},
                                         **({"excludes": [float(e) for e in p["excludes"]]} if "excludes" in p else {}))),
-        variants=[{}, {"passes": 2}, {"excludes": [4.0, 7.0]}, {"passes": 0}])
+        variants=[{}, {"passes": 2}, {"excludes": [4.0, 7.0]}, {"passes": 0, "_corner": 1}])
     add("focal_apply", "focal", "apply", _one("elev"),
         lambda p, ins: ((ins[0], kernel(p.get("kernel", "cross3"))),
-                        ({"func": getattr(M["focal"], p["func"])} if "func" in p else {})),
-        variants=[{}, {"kernel": "circle5"}, {"func": "_calc_max"}, {"kernel": "col3", "func": "_calc_sum"}])
+                        dict(({"func": getattr(M["focal"], p["func"])} if "func" in p else {}), **_only(p, "name"))),
+        variants=[{}, {"kernel": "circle5"}, {"func": "_calc_max"}, {"kernel": "col3", "func": "_calc_sum"},
+                  {"kernel": "one1", "_corner": 1}])
     add("focal_stats", "focal", "focal_stats", _one("elev"),
         lambda p, ins: ((ins[0], kernel(p.get("kernel", "cross3"))),
                         ({"stats_funcs": list(p["stats"])} if "stats" in p else {})),
-        variants=[{}, {"stats": ["min", "sum"]}, {"kernel": "box3", "stats": ["mean"]}])
+        variants=[{}, {"stats": ["min", "sum"]}, {"kernel": "box3", "stats": ["mean"]},
+                  {"kernel": "one1", "stats": ["mean"], "_corner": 1}])
     add("hotspots", "focal", "hotspots", _one("elev"),
-        lambda p, ins: ((ins[0], kernel(p.get("kernel", "cross3"))), {}), variants=[{}, {"kernel": "box3"}])
+        lambda p, ins: ((ins[0], kernel(p.get("kernel", "cross3"))), {}),
+        variants=[{}, {"kernel": "box3"}, {"kernel": "one1", "_corner": 1}])
     for nm, roles in (("arvi", 3), ("evi", 3), ("gci", 2), ("nbr", 2), ("nbr2", 2), ("ndvi", 2), ("ndmi", 2),
                       ("savi", 2), ("sipi", 3), ("ebbi", 3)):
         add(nm, "multispectral", nm, [("b%d" % i, "elev", {"seed": i * 3 + 1}) for i in range(roles)],
@@ -310,7 +328,8 @@ def catalog():
     add("a_star_search", "pathfinding", "a_star_search", _one("surface"),
         lambda p, ins: ((ins[0], (ys[p.get("sy", 0)], xs[p.get("sx", 0)]), (ys[p.get("gy", H - 1)], xs[p.get("gx", W - 1)])),
                         dict({k: v for k, v in p.items() if k in ("barriers", "connectivity", "snap_start", "snap_goal")})),
-        variants=[{}, {"barriers": [3]}, {"connectivity": 4}, {"barriers": [3, 5], "gy": 2, "gx": 4, "snap_goal": True}],
+        variants=[{}, {"barriers": [3]}, {"connectivity": 4}, {"barriers": [3, 5], "gy": 2, "gx": 4, "snap_goal": True},
+                  {"gy": 0, "gx": 0, "_corner": 1}],                                          # start == goal
         only={"backend": ["numpy"]})
     for nm in ("proximity", "allocation", "direction"):
         add(nm, "proximity", nm, _one("targets"),
@@ -318,7 +337,8 @@ def catalog():
                                             **({"target_values": list(p["target_values"])} if "target_values" in p else {}))),
             variants=[{}, {"target_values": [3]}, {"target_values": [5, 7]}, {"max_distance": 4.5},
                       {"distance_metric": "MANHATTAN"}, {"distance_metric": "GREAT_CIRCLE"},
-                      {"target_values": [3], "max_distance": 3.0, "distance_metric": "MANHATTAN"}])
+                      {"target_values": [3], "max_distance": 3.0, "distance_metric": "MANHATTAN"}]
+            + ([{"max_distance": 0.0, "_corner": 1}] if nm != "direction" else []))
     add("viewshed", "viewshed", "viewshed", _one("elev"),
         lambda p, ins: ((ins[0],), dict(x=xs[p.get("vx", 3)], y=ys[p.get("vy", 2)], observer_elev=p.get("oe", 5),
                                         **({"target_elev": p["te"]} if "te" in p else {}))),
@@ -333,18 +353,20 @@ def catalog():
         lambda p, ins: ((ins[0], ins[1]), dict(p)),
         variants=[{}, {"agg": "percentage"}, {"zone_ids": [0, 3]}, {"cat_ids": [10, 30]}])
     add("zonal_apply", "zonal", "apply", [("zones", "izones", {"dtype": "int"}), ("values", "elev", {})],
-        lambda p, ins: ((ins[0], ins[1], _double if p.get("func", "double") == "double" else _plus1), {}),
-        variants=[{}, {"func": "plus1"}], only={"backend": ["numpy"]})
+        lambda p, ins: ((ins[0], ins[1], {"double": _double, "plus1": _plus1, "ident": _ident}[p.get("func", "double")]),
+                        _only(p, "nodata")),
+        variants=[{}, {"func": "plus1"}, {"func": "ident", "_corner": 1}], only={"backend": ["numpy"]})
     add("regions", "zonal", "regions", _one("zones"), lambda p, ins: ((ins[0],), dict(p)),
-        variants=[{}, {"neighborhood": 8}])
+        variants=[{}, {"neighborhood": 8}, {"_kind": "const", "_corner": 1}])
     add("trim", "zonal", "trim", _one("border0", nan=True),
-        lambda p, ins: ((ins[0],), ({"values": tuple(p["values"])} if "values" in p else {})),
-        variants=[{"values": [0]}, {}, {"values": [0, 1]}])
+        lambda p, ins: ((ins[0],), dict(({"values": tuple(p["values"])} if "values" in p else {}), **_only(p, "name"))),
+        variants=[{"values": [0]}, {}, {"values": [0, 1]}, {"values": [0], "_kind": "elev", "_corner": 1}])   # nothing to trim
     add("crop", "zonal", "crop", [("zones", "border0", {}), ("values", "elev", {})],
-        lambda p, ins: ((ins[0], ins[1]), dict(zones_ids=tuple(p.get("ids", [1, 2, 3, 4, 5, 6, 7, 8, 9, 10, 11])))),
-        variants=[{}, {"ids": [5]}])
+        lambda p, ins: ((ins[0], ins[1]), dict(zones_ids=tuple(p.get("ids", [1, 2, 3, 4, 5, 6, 7, 8, 9, 10, 11])), **_only(p, "name"))),
+        variants=[{}, {"ids": [5]}, {"ids": list(range(1, 41)), "_kind": "elev", "_corner": 1}])          # nothing to crop
     add("polygonize", "experimental.polygonize", "polygonize", _one("zones"),
-        lambda p, ins: ((ins[0],), dict(p)), variants=[{}, {"connectivity": 8}], only={"backend": ["numpy"]})
+        lambda p, ins: ((ins[0],), dict(p)), variants=[{}, {"connectivity": 8}, {"_kind": "const", "_corner": 1}],
+        only={"backend": ["numpy"]})
     add("polygonize_mask", "experimental.polygonize", "polygonize", [("raster", "zones", {}), ("mask", "surface", {})],
         lambda p, ins: ((ins[0],), dict(mask=ins[1], **p)), variants=[{}], only={"backend": ["numpy"]})
     add("perlin", "perlin", "perlin", _one("elev"), lambda p, ins: ((ins[0],), dict({k: (tuple(v) if k == "freq" else v) for k, v in p.items()})),
@@ -356,10 +378,13 @@ def catalog():
         add("local_" + nm, "local", nm, [("ds", "dataset", {})], lambda p, ins: ((ins[0],), dict(p)),
             variants=[{}] + ([{"func": "max"}, {"func": "mean"}] if nm == "cell_stats" else []), only={"backend": ["numpy"]})
     for nm in ("lesser_frequency", "equal_frequency", "greater_frequency", "popularity", "rank"):
-        add("local_" + nm, "local", nm, [("ds", "dataset", {})], lambda p, ins: ((ins[0], "v0"), dict(p)),
+        add("local_" + nm, "local", nm, [("ds", "dataset", {})],
+            lambda p, ins: ((ins[0], p.get("ref_var", "v0")), {k: v for k, v in p.items() if k != "ref_var"}),
             variants=[{}], only={"backend": ["numpy"]})
     add("summarize_terrain", "analytics", "summarize_terrain", _one("elev"), simple)
-    add("canvas_like", "utils", "canvas_like", _one("elev"), lambda p, ins: ((ins[0],), dict(width=p.get("width", 4))),
+    add("canvas_like", "utils", "canvas_like", _one("elev"),
+        lambda p, ins: ((ins[0],), dict(width=p.get("width", 4), **{k: (tuple(v) if k.endswith("range") else v)
+                                                                   for k, v in p.items() if k != "width"})),
         only={"backend": ["numpy"]})
     add("calc_res", "utils", "calc_res", _one("elev"), simple)
     add("get_dataarray_resolution", "utils", "get_dataarray_resolution", _one("elev"), simple)
@@ -368,22 +393,31 @@ def catalog():
     add("validate_arrays", "utils", "validate_arrays", [("a", "elev", {}), ("b", "elev", {"seed": 2, "chunks": (3, 7)})],
         lambda p, ins: (tuple(ins), {}))
     add("color_values", "utils", "color_values", _one("zones"),
-        lambda p, ins: ((ins[0], {0: "red", 1: "blue", 2: "green", 3: "#ffffff"}), {}), only={"backend": ["numpy"]})
+        lambda p, ins: ((ins[0], {0: "red", 1: "blue", 2: p.get("c2", "green"), 3: "#ffffff"}), _only(p, "alpha")),
+        only={"backend": ["numpy"]})
     add("bands_to_img", "utils", "bands_to_img", [("b%d" % i, "elev", {"seed": i * 3 + 1}) for i in range(3)],
         lambda p, ins: (tuple(ins), {}), only={"backend": ["numpy"]})
+    # kernel constructors (no raster input; their results are arrays): C11 only
+    CV = M["convolution"]
+    add("circle_kernel", "convolution", "circle_kernel", [],
+        lambda p, ins: ((p.get("cx", 1), p.get("cy", 1), p.get("radius", 2)), {}))
+    add("annulus_kernel", "convolution", "annulus_kernel", [],
+        lambda p, ins: ((p.get("cx", 1), p.get("cy", 1), p.get("outer", 2), p.get("inner", 1)), {}))
+    add("custom_kernel", "convolution", "custom_kernel", [], lambda p, ins: ((kernel(p.get("kernel", "cross3")),), {}))
     # no raster input: only meaningful for C11 (global RNG consumer)
     add("bump", "bump", "bump", [], lambda p, ins: ((p.get("w", 7), p.get("h", 6)), dict(count=p.get("count", 5), spread=p.get("spread", 1))),
         variants=[{}, {"count": 3, "spread": 2}])
     return C, M
 
 
-def mk_dataset(dtype, layout, backend, seed=0):
+def mk_dataset(dtype, layout, backend, seed=0, h=3, w=4, frac=False):
     """Dataset of three variables for xrspatial.local.* -> (Dataset, [mem arrays])"""
     import xarray as xr
     mems = []
     ds = {}
     for i in range(3):
-        a, m = mk_raster("surface", dtype, layout, backend, seed=seed + 2 * i, name="v%d" % i, h=3, w=4, chunks=(2, 2))
+        a, m = mk_raster("elev" if frac else "surface", dtype, layout, backend, seed=seed + 2 * i, name="v%d" % i, h=h, w=w,
+                         chunks=(2, 2) if h == 3 else (h // 3 + 1, w // 2 + 1), frac=frac)
         a = a.drop_vars(["band", "spatial_ref"])
         ds["v%d" % i] = a
         mems.append(m)
@@ -391,14 +425,26 @@ def mk_dataset(dtype, layout, backend, seed=0):
     return d, mems
 
 
-def build_inputs(entry, dtype, layout, backend, seed=0, h=H, w=W, finite=False):
+def public(p):
+    """variant parameters without the private keys (_kind: kind of the first raster input, _hw: raster size,
+    _corner: marks the do-nothing / identity corner of a function)"""
+    return {k: v for k, v in p.items() if not k.startswith("_")}
+
+
+def build_inputs(entry, dtype, layout, backend, seed=0, h=H, w=W, finite=False, p=None):
     """-> list of (role, xarray object, [mem arrays]).  finite=True: no NaN / inf anywhere (and non-integral float values):
     in-place sorts, cumulative operations and normalisations only bite on all-finite, unsorted inputs."""
     np = _np()
     out = []
-    for role, kind, opts in entry["ins"]:
+    p = p or {}
+    if p.get("_hw"):
+        h, w = p["_hw"]
+    for k, (role, kind, opts) in enumerate(entry["ins"]):
+        if k == 0 and p.get("_kind"):
+            kind = p["_kind"]
         if kind == "dataset":
-            d, mems = mk_dataset(dtype, layout, backend, seed)
+            d, mems = (mk_dataset(dtype, layout, backend, seed) if (h, w) == (H, W)
+                       else mk_dataset(dtype, layout, backend, seed, h=h, w=w, frac=finite))
             out.append((role, d, mems))
             continue
         dt = dtype
@@ -413,7 +459,7 @@ def build_inputs(entry, dtype, layout, backend, seed=0, h=H, w=W, finite=False):
 def catalog_meta():
     """Pure-python view for the drivers: {name: {"nvariants": n, "backends": [...], "nin": k}}"""
     C, _ = catalog()
-    return {k: {"mod": v["mod"], "nan_inputs": any(o.get("nan") for _r, _k, o in v["ins"]), "nvariants": len(v["variants"]), "variants": v["variants"], "variant_backends": v.get("variant_backends", {}),
+    return {k: {"mod": v["mod"], "corners": [i for i, q in enumerate(v["variants"]) if q.get("_corner")], "nan_inputs": any(o.get("nan") for _r, _k, o in v["ins"]), "nvariants": len(v["variants"]), "variants": v["variants"], "variant_backends": v.get("variant_backends", {}),
                 "backends": (v.get("only") or {}).get("backend", BACKENDS), "nin": len(v["ins"])}
             for k, v in C.items()}
 
